@@ -7,13 +7,19 @@ import orig "time"
 const ANSIC = orig.ANSIC
 const April = orig.April
 const August = orig.August
+
 var Date = orig.Date
+
 const DateOnly = orig.DateOnly
 const DateTime = orig.DateTime
 const December = orig.December
+
 type Duration = orig.Duration
+
 const February = orig.February
+
 var FixedZone = orig.FixedZone
+
 const Friday = orig.Friday
 const Hour = orig.Hour
 const January = orig.January
@@ -21,24 +27,33 @@ const July = orig.July
 const June = orig.June
 const Kitchen = orig.Kitchen
 const Layout = orig.Layout
+
 var LoadLocation = orig.LoadLocation
 var LoadLocationFromTZData = orig.LoadLocationFromTZData
 var Local = orig.Local
+
 type Location = orig.Location
+
 const March = orig.March
 const May = orig.May
 const Microsecond = orig.Microsecond
 const Millisecond = orig.Millisecond
 const Minute = orig.Minute
 const Monday = orig.Monday
+
 type Month = orig.Month
+
 const Nanosecond = orig.Nanosecond
 const November = orig.November
 const October = orig.October
+
 var Parse = orig.Parse
 var ParseDuration = orig.ParseDuration
+
 type ParseError = orig.ParseError
+
 var ParseInLocation = orig.ParseInLocation
+
 const RFC1123 = orig.RFC1123
 const RFC1123Z = orig.RFC1123Z
 const RFC3339 = orig.RFC3339
@@ -56,13 +71,20 @@ const StampMilli = orig.StampMilli
 const StampNano = orig.StampNano
 const Sunday = orig.Sunday
 const Thursday = orig.Thursday
+
 type Time = orig.Time
+
 const TimeOnly = orig.TimeOnly
 const Tuesday = orig.Tuesday
+
 var UTC = orig.UTC
 var Unix = orig.Unix
+
 const UnixDate = orig.UnixDate
+
 var UnixMicro = orig.UnixMicro
 var UnixMilli = orig.UnixMilli
+
 const Wednesday = orig.Wednesday
+
 type Weekday = orig.Weekday
